@@ -75,3 +75,57 @@ infer_default = Contract(
 )
 
 CONTRACTS.append(infer_default)
+
+# ------------------------------------------------------------------------------------------- _set_name_and_type (C01/C02/C03 type faithfulness)
+def _snt_case(name, typ="<absent>", doc="<absent>", default="<absent>", ww=False, infer=False, assume=(), pname="str"):
+    d = {}
+    if typ != "<absent>":
+        d["typ"] = typ
+    if doc != "<absent>":
+        d["doc"] = doc
+    if default != "<absent>":
+        d["default"] = default
+    return Case(name, {"param": ("tuple", [pname, ("dict", d)]), "infer_type": infer, "word_wrap": ww},
+                assume=(["not param[0].endswith('kwargs')", "not param[0].startswith('**')"] if pname == "str" else []) + list(assume))
+
+
+_T = "old_param[1]['typ']"
+_DOC = "old_param[1]['doc']"
+_GOPT = "(T[-10:] == ', optional' and len(T) >= 10)".replace("T", _T)
+_T1 = "(('Optional[' + T[:-10] + ']') if G else T)".replace("T", _T).replace("G", _GOPT)
+_DOCR = "%s.rstrip()" % _DOC
+_ANN = "(R[:10] == '(Optional)' or R[:8] == 'Optional')".replace("R", _DOCR)
+
+set_name_and_type = Contract(
+    "doctrans.docstring_parsers:_set_name_and_type",
+    properties=["C01", "C02", "C03"],
+    note="ordinary parameter names (the **kwargs branch is a separate case); word_wrap=False (the re-joining of wrapped prose splits on newlines, "
+         "outside the verified subset; bounded companion); the default branch goes through _infer_default by contract-free inlining only in the "
+         "no-default cases below",
+    cases=[
+        _snt_case("typ,doc", "str", "str", assume=["param[1]['doc'] != ''"]),
+        _snt_case("typ,emptydoc", "str", ("lit", "")),
+        _snt_case("typ,nodoc", "str"),
+        _snt_case("notyp,doc", doc="str", assume=["param[1]['doc'] != ''"]),
+        _snt_case("kwargs", ("lit", "dict"), "str", pname=("lit", "**kwargs"), assume=["param[1]['doc'] != ''"]),
+        _snt_case("kwargs,untyped", doc="str", pname=("lit", "kwargs"), assume=["param[1]['doc'] != ''"]),
+    ],
+    ensures=[
+        Clause("SNT-name", "result[0] == old_param[0]", when=["typ,doc", "typ,emptydoc", "typ,nodoc", "notyp,doc"],
+               note="the name of an ordinary parameter is kept"),
+        Clause("SNT-same-dict", "result[1] is old_param[1]", note="the entry is updated in place and handed back"),
+        Clause("SNT-doc", "result[1]['doc'] == %s" % _DOCR, when=["typ,doc", "notyp,doc"], note="prose loses trailing whitespace only"),
+        Clause("SNT-doc-dropped", "('doc' in result[1]) == False", when=["typ,emptydoc", "typ,nodoc"], note="no empty prose entry is left"),
+        Clause("SNT-typ", "result[1]['typ'] == (('Optional[' + %s + ']') if (%s and %s[:9] != 'Optional[') else %s)" % (_T1, _ANN, _T1, _T1), when=["typ,doc"],
+               note="C0x type faithfulness: the declared type is changed only by the two documented rules - a trailing ', optional' (Google) and prose "
+                    "that opens with 'Optional' / '(Optional)' - and never otherwise"),
+        Clause("SNT-typ-nodoc", "result[1]['typ'] == %s" % _T1, when=["typ,emptydoc", "typ,nodoc"]),
+        Clause("SNT-notyp", "('typ' in result[1]) == False", when=["notyp,doc"], note="no type is invented from prose"),
+        Clause("SNT-kwargs", "result[0] == 'kwargs' and result[1]['typ'] == 'Optional[dict]' and result[1]['default'] == %r" % NONESTR,
+               when=["kwargs", "kwargs,untyped"], note="the catch-all keyword parameter: stars stripped, Optional[dict], None default"),
+        Clause("SNT-no-default", "('default' in result[1]) == False", when=["typ,doc", "typ,emptydoc", "typ,nodoc", "notyp,doc"],
+               note="no default is invented for an ordinary parameter"),
+    ],
+    canaries=["result[0] == ''", "result[1]['typ'] == 'int'"],
+)
+CONTRACTS.append(set_name_and_type)
